@@ -27,4 +27,5 @@ int shim_timer_reset(void * c) { return (events_timer_reset(c)); }
 int shim_events_run(void) { return (events_run()); }
 int shim_events_spin(int * done) { return (events_spin(done)); }
 void shim_interrupt(void) { events_interrupt(); }
+void shim_events_shutdown(void) { events_shutdown(); }
 void shim_silence(void) { }
